@@ -30,6 +30,9 @@ CLAIMED = {
  "C13": ("Coq LTS of the shared limiter (readers Idle/Waiting/Holding/Done, events Start/Acquire/CancelWaiting/Finish, the channel length); theorems for every limit, number of readers and history: C13_inv (channel length = number of holders <= limit), C13_cancel (a cancelled waiter neither keeps nor releases a slot), C13_progress (a free slot can always be taken by a waiter); the pinned ordering of the deferred release is refuted with the witness history. Tied to the code by scripted start/stop histories over real sessions sharing a limiter, observed through len(limiter) and the open files of the process, sequenced with the verif hooks.",
          "partial: scheduler fairness among waiters is not claimed; the harness observes at quiescence only",
          "Coq proof (invariant by induction over histories, counting lemma) + hook-sequenced correspondence on real sessions"),
+ "C14": ("Coq model of the slot accounting (Accept admits iff a slot is free and reserves it; End releases it): for every MaxConnections and every history C14_inv (reported count = connections being served, 0 <= count <= max), C14_admit (admitted iff fewer than max are served), C14_release (each ending connection frees exactly its slot); the pinned accounting is modelled separately and refuted three ways (leak, negative count, burst). Tied to the code by scripted histories of real SSH/TCP clients of every kind against the real server in-process, comparing the reported counter with the harness' ground truth after every event.",
+         "partial: kernel accept queue and TCP are outside the model; 'open' is judged at quiescence; burst order is the scheduler's (oracle only)",
+         "Coq proof (invariant over histories, NoDup/length lemmas) + scripted-history correspondence against the real server"),
  "C16": ("Coq model of brush.Colorfy (record kinds, SplitN, the painters' trim-and-reappend of the newline, codes as abstract complete SGR sequences) and of the client handlers' Write; theorems: C16_text (text parts of the rendering concatenate to the message - for every message), no-panic for the repaired painters and the mapreduce handler, refutation witness for the pinned painters; the strip statement is proved on the finite domain of all 66 430 messages of <= 5 symbols over the special-byte alphabet (C16_strip_partial), the unbounded version is stated and exercised. Tied to the code through brush.Colorfy and the three handlers on generated messages/streams with colours on and off.",
          "partial: unbounded strip theorem not proved; palette abstracted; terminal outside the model",
          "Coq proof (structural lemmas; finite sweep lifted by forallb_forall) + differential correspondence check"),
